@@ -21,7 +21,7 @@ RULE = (
     "oracle = brute-force family over all 3^n subspaces; non-trivial = unconstrained answer has >=2 members and the "
     "constraints (ensure/avoid/source list/retained set) change the answer; distinct by canonical JSON of the case"
 )
-EXHAUSTIVE_NOTE = "all 4 one-variable and 256 two-variable networks x every ensure space x {min,max,fix} x both time directions"
+EXHAUSTIVE_NOTE = "all 4 one-variable and 256 two-variable networks (thorough: plus a fixed slice of 1023 three-variable networks) x every ensure space x {min,max,fix} x both time directions"
 ASSUMPTIONS = ["'max' is only asked with >=1 free variable in the ensure space and non-empty avoid spaces (as the property states)"]
 
 
@@ -65,6 +65,15 @@ def strategy(tier):
     return _case(6 if tier == "quick" else 8)
 
 
+def three_var_slice(step):
+    """a fixed arithmetic slice of the 2^24 three-variable networks in which every variable reads all three"""
+    out = []
+    for code in range(0, 1 << 24, step):
+        tabs = [[(code >> (8 * v + (7 - k))) & 1 for k in range(8)] for v in range(3)]
+        out.append({"names": ["v0", "v1", "v2"], "regs": [[0, 1, 2]] * 3, "tables": tabs})
+    return out
+
+
 def exhaustive(tier):
     nets = []
     for t in range(4):
@@ -78,6 +87,8 @@ def exhaustive(tier):
                     "tables": [[(t0 >> (3 - k)) & 1 for k in range(4)], [(t1 >> (3 - k)) & 1 for k in range(4)]],
                 }
             )
+    if tier == "thorough":
+        nets += three_var_slice(16411)
     out = []
     for nj in nets:
         n = len(nj["names"])
